@@ -2829,7 +2829,11 @@ impl<'a> Visitor<'a, '_, Error> for JSONValidator<'a> {
           }
         } else if is_ident_time_data_type(self.state.cddl, ident) {
           if let Some(n) = n.as_i64() {
-            if let chrono::LocalResult::None = Utc.timestamp_millis_opt(n * 1000) {
+            // seconds -> milliseconds may not fit in an i64
+            let in_range = n
+              .checked_mul(1000)
+              .is_some_and(|ms| !matches!(Utc.timestamp_millis_opt(ms), chrono::LocalResult::None));
+            if !in_range {
               self.add_error(format!(
                 "expected time data type, invalid UNIX timestamp {}",
                 n,
